@@ -517,7 +517,8 @@ def check_eval_dims(ctx, rule='R-EVALDIMS'):
                 continue            # the result's own dimensions
             n += 1
             own = False
-            for a, pol in pth.decisions() if hasattr(pth, 'decisions') else [(x[1], x[2]) for x in pth.items if x[0] == 'cond']:
+            res = _paths.expand(pth)          # conditions with named temporaries substituted (hasdims = ...; if hasdims:)
+            for a, pol in [(x_, p_) for e_, x_, p_ in res.conds] + [(x[1], x[2]) for x in pth.items if x[0] == 'cond']:
                 t = norm(a)
                 if ('.dimensions' in t and pol is False and ('!= ()' in t or '!=()' in t)) or ('.dimensions' in t and '== ()' in t and pol is True) or \
                         ('isinstance(' in t and 'PseudoNetCDFVariable' in t and pol is False) or ("hasattr(" in t and "'dimensions'" in t and pol is False):
